@@ -813,7 +813,8 @@ ALL_TAGS = ["square_clustering", "bfs_equal_size_partitions(1)", "bfs_equal_size
             "dijkstra::multi_source(all paths)", "dijkstra::multi_source(first_only, distances)",
             "get_subgraph(every other name): node order", "louvain_communities(seed 1) of that subgraph"]
 
-FAMS = ["path", "cycle", "complete", "star", "circ2", "grid", "cliques", "rand", "hubtwin", "hubtwin_dir", "w5", "mring", "bigdir"]
+FAMS = ["path", "cycle", "complete", "star", "circ2", "grid", "cliques", "rand", "hubtwin", "hubtwin_dir", "w5", "mring", "bigdir",
+        "triring"]
 WTS = [0.1, 0.2, 0.3]
 
 
@@ -908,6 +909,19 @@ class C17Prop(CommProp):
                         edges.append((base + j, 0, sp[j], None))
                         if r.below(2):
                             edges.append((0, base + j, sp[(j + 1) % 3], None))
+                edges = r.shuffle(edges) if r.below(2) else edges
+            if kind == "triring":
+                # a ring of 8-12 triangles (inside weight 0.7) in which neighbouring triangles are joined by THREE edges of
+                # weights 0.1, 0.2, 0.3: on the second level every aggregated edge is a sum of three inexact weights and
+                # every community has two equally good neighbours, so the order in which the three are added decides
+                k = 8 + r.below(5)
+                directed, wmode, es = 0, "rnd", []
+                for t_ in range(k):
+                    a = 3 * t_
+                    edges += [(a, a + 1, 0.7, None), (a + 1, a + 2, 0.7, None), (a, a + 2, 0.7, None)]
+                    b = 3 * ((t_ + 1) % k)
+                    sp = r.shuffle(WTS)
+                    edges += [(a + j, b + j, sp[j], None) for j in range(3)]
                 edges = r.shuffle(edges) if r.below(2) else edges
             if kind == "hubtwin":
                 # a hub joined by inexact weights (0.1, 0.2, 0.3 in some order) to each of two identical heavy
